@@ -533,7 +533,7 @@ impl BigUint {
 			1 => Self::Small(u64::deserialize(read)?),
 			2 => {
 				let len = usize::deserialize(read)?;
-				let mut v = Vec::with_capacity(len);
+				let mut v = Vec::with_capacity(crate::serialize::prealloc(len));
 				for _ in 0..len {
 					v.push(u64::deserialize(read)?);
 				}
